@@ -33,6 +33,12 @@ def gen_pattern(rng, name, process_backend, big=False):
         return t
     for _ in range(rng.randrange(0, 3)):
         ops.append(['log', rng.choice(['info', 'warning', 'error']), tok('logger')])
+    r = rng.random()
+    if r < 0.12:
+        # the task makes its own logging more verbose than the caller's (labtech.logger.setLevel inside run())
+        ops += [['setlevel', 'DEBUG'], ['log', 'debug', tok('logger-debug')], ['log', 'info', tok('logger')]]
+    elif r < 0.18:
+        ops += [['setlevel', 'ERROR'], ['log', 'info', tok('logger')], ['log', 'error', tok('logger')]]
     if big == 'records':
         # thousands of separate RECORDS (not lines of one record) between two drains of the log queue
         for _ in range(6000):
@@ -104,6 +110,10 @@ def one(rep, rng, j):
         kinds = ['raise:ValueError', 'raise:ValueError', 'raise:SystemExit', 'raise:Multi']
         scn['failing'] = {n: rng.choice(kinds) for n in rng.sample(names, rng.randrange(1, min(3, len(names)) + 1))}
         scn['cof'] = rng.random() < 0.75      # with False run_tasks leaves by raising LabError at the first failure
+    if rng.random() < 0.2:
+        # the calling program set the verbosity of the labtech logger before the run; what a task's own logger
+        # emits (fork/serial: the inherited level; spawn: the level of a fresh import) must still arrive
+        scn['logger_level'] = rng.choice(['WARNING', 'ERROR', 'DEBUG'])
     if proc:
         scn['gated'] = rng.random() < 0.6
         if not scn['gated']:
@@ -138,9 +148,14 @@ def one(rep, rng, j):
     occ = _Counter(_re.findall(r'TOK-[A-Za-z0-9_]+-\d+-[0-9a-f]{8}-END', text))
     if flood:
         rep.count('runs_with_thousands_of_records')
+    suppressed = {t for e in out.events if e['k'] == 'log-suppressed' for t in e['toks']}
+    if suppressed:
+        rep.count('records_suppressed_by_the_tasks_own_logger_level', len(suppressed))
     for t, (n, ch) in tokens.items():
         if not emits(n):
             continue        # never got to its logging statements
+        if t in suppressed:
+            continue        # not emitted: disabled by the level of the logger in the process that ran the task
         if raised_lab_error and n not in yields:
             # run_tasks left by raising: only the tasks whose completion it had been handed count; the rest may
             # still be running (but nothing may be duplicated)
@@ -151,6 +166,8 @@ def one(rep, rng, j):
             rep.count('tokens_of_failing_tasks')
         k = occ.get(t, 0)
         rep.count('tokens_checked')
+        if ch == 'logger-debug' or scn.get('logger_level'):
+            rep.count('tokens_checked_with_differing_logger_levels')
         rep.count('tokens_' + ch.split('-')[0])
         if k != 1:
             where = 'last-round' if n in last_round else 'earlier-round'
@@ -180,6 +197,7 @@ def run_shard(rep):
     rep.require('tokens_checked', 1000)
     rep.require('single_task_runs', 30)
     rep.require('tokens_of_failing_tasks', 100)
+    rep.require('tokens_checked_with_differing_logger_levels', 100)
     for j in range(rep.shard, cfg['n'], rep.nshards):
         if rep.expired():
             rep.count('skipped_for_time')
@@ -194,8 +212,9 @@ def replay(rep, wit):
     scn = wit['witness']['scenario']
     out = engine.run_dag(scn)
     text = '\n'.join(m for _, m in out.logs)
+    suppressed = {t for e in out.events if e['k'] == 'log-suppressed' for t in e['toks']}
     for n, p in scn['task_plan'].items():
         for op in p['logs']:
-            if op[0] in ('log', 'print', 'write') and text.count(op[2]) != 1:
+            if op[0] in ('log', 'print', 'write') and op[2] not in suppressed and text.count(op[2]) != 1:
                 rep.violation('lost-or-duplicated', f'{op} of {n} received {text.count(op[2])} times', wit['witness'])
                 return
